@@ -1,6 +1,7 @@
 """C15 — offline-queue policy decides per operation kind what survives being offline."""
 
-PROP = {'areas': [{'area': 'engine',
+PROP = {'areas': [{'also': ['C01:monitor:104'],
+            'area': 'engine',
             'corpus': ['corpus/engine/d11_half_encoded_connect_service_time.script',
                        'corpus/engine/d12_keep_alive_one_second.script',
                        'corpus/engine/d14_close_with_queued_disconnect.script',
